@@ -4,6 +4,7 @@ import (
 	"bytes"
 	"crypto/sha256"
 	"encoding/asn1"
+	"errors"
 	"fmt"
 	"math/big"
 	"math/rand"
@@ -262,9 +263,11 @@ func C01(c *core.Ctx) {
 			}
 			return ""
 		}, true)
-		qa, err := abi.QuoteToProto(donor.Quote.Raw)
-		if err != nil {
-			panic(err)
+		var qa any
+		var err error
+		if p := safely(func() { qa, err = abi.QuoteToProto(donor.Quote.Raw) }); p != nil || err != nil {
+			c.Lookahead = 0
+			continue // the parser's behaviour on valid quotes is C09's and C10's business
 		}
 		m := proto.Clone(qa.(*pb.QuoteV4)).(*pb.QuoteV4)
 		cd := m.SignedData.CertificationData
@@ -274,7 +277,9 @@ func C01(c *core.Ctx) {
 		pck.PckCertChain, pck.Size = chain, uint32(len(chain))
 		cd.Size += delta
 		m.SignedDataSize += delta
-		raw, serr := abi.QuoteToAbiBytes(m)
+		var raw []byte
+		serr := errors.New("not serialised")
+		_ = safely(func() { raw, serr = abi.QuoteToAbiBytes(m) })
 		for k, useMsg := range []bool{true, false} {
 			c.Lookahead = 2 - k
 			sc := scenarioFromWorld(host, false, false)
